@@ -3,5 +3,5 @@ CONSTANTS
   Programs <- cProgramsQuick
   Emit = TRUE
 INVARIANTS NoDeadlock CacheSound SerialResults EmitVec
-PROPERTIES Terminates
+PROPERTIES Terminates ParseNeverCaches
 CHECK_DEADLOCK FALSE
